@@ -341,6 +341,9 @@ def fault_units():
     faults = []
     for code, ext in [(-100, 0), (-200, 0), (-222, 0), (-300, 0), (-400, 0), (5, 0), (-113, 0), (-310, 1)]:
         faults.append(U(["A"], h=H(res=(code, ext))))
+    # a handler that returns Err(NoError) (number 0, here with extended text): the unit failed, whatever the number
+    faults.append(U(["A"], h=H(res=(0, 1))))
+    faults.append(U(["Bq"], query=True, h=H(res=(0, 2), items=("1",), partial=True)))
     # a handler failing with -113 itself, next to a default branch that could "explain" the header
     faults.append(U(["SENS", "CURR"], h=H(res=(-113, 0))))
     faults.append(U(["SENS", "CURR"], query=True, h=H(res=(-113, 1))))
@@ -408,6 +411,12 @@ def run_c06(chk, tier, seed):
             if len(p) <= (3 if th else 2) and len(d) <= 2:
                 small.append(units[-1])
         units.append(U(["Bq"], query=True, data=[DATA[x] for x in d], h=H(pulls=["opt"] * len(d), items=("0",))))
+    # a branch addressed by itself, in query form, with parameters for its default leaf (directly and through a nested default branch)
+    for path in (["GRP"], ["SENS"], ["SENS", "VOLT"]):
+        units.append(U(path, query=True, data=[DATA["num"]], h=H(pulls=["req"], items=("1",))))
+        units.append(U(path, query=True, data=[DATA["num"], DATA["chr"], DATA["str"]], h=H(pulls=["req", "opt"], items=("2",))))
+        units.append(U(path, query=True, data=[DATA["num2"]], h=H(items=("3",))))
+        units.append(U(path, data=[DATA["str"], DATA["num"]], h=H(pulls=["req", "req", "opt"])))
     many = [DATA["num"], DATA["chr"]] * 128 + [DATA["str"]]        # 257 data elements in one unit
     for npull in (257, 256, 258):
         units.append(U(["A"], data=many, h=H(pulls=["req"] * npull)))
